@@ -13,9 +13,10 @@ META = {
         "19.f hidden stems main / middle / residual; the list form (main, then middle and residual where they exist, tagged with their kind) on engine B",
         "19.g clash, six combinations, harms: involutions on the classical pair sets, transformed element",
         "19.h sixty pillars: stem/branch decomposition, Nayin, decade (Xun), void branches",
-        "19.i element generate / overcome as inverse pairs, element <-> direction",
+        "19.i element generate / overcome as inverse pairs, element <-> direction; direction -> element for all nine palaces (trigram elements; engine B)",
         "19.j zodiac sign for all 366 month-day pairs",
         "19.l eight-character derived signs on all pillar combinations (engine B): foetal origin, foetal breath, own sign (命宫: month number + hour number + sign number = 14 or 26, Five-Tigers stem), body sign (身宫)",
+        "19.k/B the nine fields of heaven sit in the nine palaces (Land -> Direction), the four palaces' divine beasts (Zone -> Beast), the nine 20-year periods in their three 60-year epochs (Twenty -> Sixty): rules stated on names, index orders read from the source (engine B)",
         "19.k 28 mansions (luminary, zone, animal, the nine fields), nine stars (element, direction, dipper), twelve spirits (yellow/black path)",
     ],
     "outside": ["Zone::get_direction and foetus-spirit name strings (generic lookup by name)", "Peng Zu texts, nine-star colours (plain strings)",
@@ -52,7 +53,8 @@ def engine_b(tier, seed, scr):
     if eng is None:
         return err
     from mir2smt import almanac
-    return [pillars.k_eight_char(eng, k) for k in range(4)] + [almanac.k_hidden_stem_list(eng)]
+    return [pillars.k_eight_char(eng, k) for k in range(4)] + [almanac.k_hidden_stem_list(eng), almanac.k_direction_element(eng)] + \
+        [almanac.k_name_table(eng, o, m, rk, rule) for o, m, rk, rule in almanac.NAME_RULES]
 
 def fallback_candidates(j):
     """the finite domains, enumerated — used only to find a concrete witness after the solver has flagged the obligation and its trace run
